@@ -459,7 +459,9 @@ fn run_single_program(
 
             // our strings do not have '\x00' bytes in them,
             // we can use CString::new().expect() safely.
+            // a per-command `NAME=value` replaces an exported NAME for this command
             let mut c_envs: Vec<_> = env::vars()
+                .filter(|(k, _)| !cl.envs.contains_key(k))
                 .map(|(k, v)| {
                     CString::new(format!("{}={}", k, v).as_str()).expect("CString error")
                 })
